@@ -239,8 +239,8 @@ func main() {
 	}
 
 	np := len(m0) * (len(m0) + 1) / 2
-	// thorough parts are capped at 30 minutes each; a part that hits the cap reports exhaustive:false (exit 0)
-	cap30 := 30 * time.Minute
+	// thorough parts are capped at 15 minutes each; a part that hits the cap reports exhaustive:false (exit 0)
+	cap30 := 15 * time.Minute
 	// Part 1: callback seam, 2 threads, 1 query each, all trees. Sharded over processes (GOMAXPROCS=1 each: hand-offs are cheap).
 	b1 := ev.Pick(r, 2, 3)
 	st := r.ExploreSharded("callback-2threads", fmt.Sprintf("%d trees x %d unordered query pairs, all schedules with <= %d preemptions at callback granularity", len(trees), np, b1),
@@ -257,7 +257,7 @@ func main() {
 			mc.Opts{MaxDev: -1, NewLocal: newLocal, Deadline: cap30}, 16, driver(false, 3, 2, 2, func(n int) bool { return n <= 3 }))
 		collect(st)
 		st = r.ExploreSharded("statement-unbounded-small", "trees with <= 2 nodes, 2 threads, every interleaving at statement granularity (no preemption bound)",
-			mc.Opts{MaxDev: -1, NewLocal: newLocal, Deadline: 20 * time.Minute}, 16, driver(true, 2, 1, -1, func(n int) bool { return n <= 2 }))
+			mc.Opts{MaxDev: -1, NewLocal: newLocal, Deadline: cap30}, 16, driver(true, 2, 1, -1, func(n int) bool { return n <= 2 }))
 		collect(st)
 	}
 	// Supplementary: free-running race detector pass.
